@@ -28,6 +28,10 @@ CLAIMED = {
          "Static decision that the server's rename/unlink bookkeeping follows the backend exactly (called on the success side only, with the same directory, names and target, on every successful exit), that Trename/Tremove use the current name read under the global lock, that every moved or deleted reference and node is re-parented / re-registered / notified / fenced by code of the required shape (recursion through both child references and child nodes), that the property's fencing table dominates every path-dependent backend call with EINVAL (ENOENT for walks) while I/O and getattr stay unfenced, and that the reference maps are updated together under childMu:W. Right level: each clause is a fact about call order, arguments and guards on every path.",
          "Which object a name denotes after k operations is runtime state and is not computed; the shape rules are specific to the current structure of renameChildTo and friends (a restructuring is reported as undecided/failed rather than assumed correct).",
          "DESIGN.md section 4 C08"),
+ "C05": ("ownership typestate for backend Files and balance analysis for counted fidRef references over go/cfg with closure inlining and error/ok-correlated continuations; shape rules for DecRef/TryIncRef, the fid-table API and connection teardown",
+         "Static decision, on every path including every error exit, that each File obtained from the backend is closed, moved into exactly one reference, or returned (never leaked, overwritten or closed twice), that a reference's File is always a fresh backend value, that reference acquisitions and releases cancel on every exit of every handler and helper, that DecRef closes the File and releases the parent exactly on the zero transition, that only DecRef closes published Files, and that teardown waits for in-flight handlers before closing transports and dropping the table's references with every serving goroutine counted. Right level: exactly-once closing is a pairing discipline on paths; the error paths no test drives are paths of the same CFG.",
+         "Assumes the File contract that a source returning an error returns no File; the numeric reference count over a whole history is not computed, only per-path pairing; Close ordering after disconnect relies on the shape of stop() and sync.WaitGroup semantics.",
+         "DESIGN.md section 4 C05, section 3 D"),
 }
 
 NOT_YET = "check not built yet (work in progress; DESIGN.md section 4 describes the planned static rules)"
